@@ -60,6 +60,9 @@ g_round = z3.Function("g_round", z3.RealSort(), z3.RealSort())  # float(f"{x:g}"
 
 def trunc_term(x):
     """int(x) for a Real term: truncation toward zero."""
+    x = z3.simplify(x)
+    if z3.is_app(x) and x.decl().kind() == z3.Z3_OP_TO_REAL:
+        return x.arg(0)  # int(float(n)) == n
     return z3.If(x >= 0, z3.ToInt(x), -z3.ToInt(-x))
 
 
